@@ -11,7 +11,8 @@ From FT Require Import Base.Dict Model.Edit Model.EditExec Proofs.EditInv Proofs
 From FT Require Proofs.EditSwap.
 From FT Require Proofs.EditNodeBasic Proofs.EditBook Proofs.EditUDN Proofs.EditUAN Proofs.EditWFEdge.
 From FT Require Gen.History_gen Proofs.HistoryGen Props.C02.
-From FT Require Proofs.EditWFPaint.
+From FT Require Proofs.EditWFPaint Proofs.EditWFPaintRollback Proofs.EditSessions Proofs.EditInverse Proofs.EditFrame.
+From FT Require Gen.UserActions_gen Proofs.UserActionsTie.
 Import ListNotations.
 Open Scope Z_scope.
 
@@ -98,14 +99,49 @@ Theorem C11_history_is_generated : forall st a dA,
    end).
 Proof. exact FT.Props.C02.C02_edit_machine_uses_generated. Qed.
 
-(* ---- paint strokes: a refused stroke returns a state equal to the original up to the order inside one
-        track-lookup entry (and the caller has restored the painted pixels: C07_paint_error_restores), for
-        every refusal except the rolled-back one (non-forced stroke with a new label that overwrites a foreign
-        node and is then refused by the nested UserAddNode; decided by the correspondence and the oracle) ---- *)
-Theorem C11_paint_partial : forall st nv t idx T force e st',
-  WF st -> EditBook.rp_disjoint st -> EditWFPaint.paint_no_rollback st nv t idx force ->
-  paint st nv t idx T force = Err e st' -> EditUAN.untouched st st' /\ WF st'.
-Proof. exact EditWFPaint.paint_refused_WF_partial. Qed.
+(* ---- paint strokes (Proofs/EditWFPaintRollback.v): EVERY refused stroke - no array, frame out of range,
+        an existing label painted into a foreign frame, the forceable refusal of the nested UserAddNode with or
+        without overwritten nodes that had to be rolled back - once the caller has restored the painted pixels,
+        returns a well-formed state that is observably equal to the original (nodes, edges, every registered
+        node / edge feature value, the array), with undo stack, redo stack, refresh log, id counter and feature
+        table literally equal and both lookups equal as sets per id.  What may differ: insertion order of
+        re-created nodes / edges / lookup members, and unregistered attribute values of re-created nodes (the
+        documented caveat of C01). ---- *)
+Theorem C11_paint : forall st nv t idx T force e st',
+  WF st -> EditBook.rp_disjoint st -> EditSessions.reg_ok st ->
+  paint st nv t idx T force = Err e st' ->
+  (WF st' /\ EditInverse.obs_eq st st') /\ EditFrame.aux_eq st st' /\
+  (forall T0 n, (exists l, lookup T0 (trk_book (bk st')) = Some l /\ In n l) <->
+                (exists l, lookup T0 (trk_book (bk st)) = Some l /\ In n l)) /\
+  (forall L0 n, (exists l, lookup L0 (lin_book (bk st')) = Some l /\ In n l) <->
+                (exists l, lookup L0 (lin_book (bk st)) = Some l /\ In n l)).
+Proof.
+  intros st nv t idx T force e st' W R G H. split; [exact (EditWFPaintRollback.paint_refused_WF st nv t idx T force e st' W R G H)|].
+  split; [exact (EditWFPaintRollback.paint_refused_aux st nv t idx T force e st' H)|].
+  exact (EditWFPaintRollback.paint_refused_lookups st nv t idx T force e st' W R G H).
+Qed.
+
+(* ---- the seven composite user actions this property quantifies over are, in the model, the code
+        translated on every run from the current user_actions/*.py (Gen/UserActions_gen.v, translator
+        harness/translate_user_actions.py, fail closed): the generated definitions equal the hand-written
+        ones the theorems above are about, for all arguments (UserAddNode: on states whose track lookup
+        lists only nodes, which W_book implies). ---- *)
+Theorem C11_user_actions_are_generated :
+  (forall st u v top, FT.Gen.UserActions_gen.gen_user_delete_edge st u v top = user_delete_edge st u v top) /\
+  (forall st u v force top, FT.Gen.UserActions_gen.gen_user_add_edge st u v force top = user_add_edge st u v force top) /\
+  (forall st n1 n2, FT.Gen.UserActions_gen.gen_user_swap st n1 n2 = user_swap st n1 n2) /\
+  (forall st n new, FT.Gen.UserActions_gen.gen_user_update_attrs st n new = user_update_attrs st n new) /\
+  (forall st n px top, FT.Gen.UserActions_gen.gen_user_delete_node st n px top = user_delete_node st n px top) /\
+  (forall st n a px force top, W_book st ->
+     FT.Gen.UserActions_gen.gen_user_add_node st n a px force top = user_add_node st n a px force top) /\
+  (forall st nv groups T force, FT.Gen.UserActions_gen.gen_user_update_seg st nv groups T force = user_update_seg st nv groups T force).
+Proof.
+  split; [exact FT.Proofs.UserActionsTie.gen_user_delete_edge_eq|]. split; [exact FT.Proofs.UserActionsTie.gen_user_add_edge_eq|].
+  split; [exact FT.Proofs.UserActionsTie.gen_user_swap_eq|]. split; [exact FT.Proofs.UserActionsTie.gen_user_update_attrs_eq|].
+  split; [exact FT.Proofs.UserActionsTie.gen_user_delete_node_eq|].
+  split; [intros st n a px force top WB; exact (FT.Proofs.UserActionsTie.gen_user_add_node_eq st n a px force top (FT.Proofs.UserActionsTie.W_book_book_nodes st WB))|].
+  exact FT.Proofs.UserActionsTie.gen_user_update_seg_eq.
+Qed.
 
 Example C11_nonvacuous :
   fst (step fx (OAddEdge 1 6 true)) = fx /\ fst (snd (step fx (OAddEdge 1 6 true))) = 10 /\
@@ -125,4 +161,5 @@ Print Assumptions C11_add_node.
 Print Assumptions C11_add_node_refusals.
 Print Assumptions C11_edge_calls.
 Print Assumptions C11_history_is_generated.
-Print Assumptions C11_paint_partial.
+Print Assumptions C11_paint.
+Print Assumptions C11_user_actions_are_generated.
